@@ -47,8 +47,12 @@ inductive Req where
   | closeDoc (ns : Bytes)
   | status (ns : Bytes)
   | dropDoc (ns : Bytes)
-  /-- `doc_set_hash` / `doc_del` with the entry the replica signs; the author is `e.author` -/
+  /-- `doc_del` (and a write whose shape the replica accepts) with the entry the replica signs; the
+  author is `e.author` -/
   | setHash (ns : Bytes) (e : Entry)
+  /-- `doc_set_hash` / `doc_set`: `Replica::insert`, which first refuses a zero length or the empty
+  hash, then does as `setHash` -/
+  | insertDoc (ns : Bytes) (e : Entry)
   | getExact (ns author key : Bytes) (includeEmpty : Bool)
   | getMany (ns : Bytes) (q : Query)
   | setPolicy (ns : Bytes) (p : Policy)
@@ -87,6 +91,8 @@ inductive Reply where
   | ticket (kind : Nat) (raw : Bytes)
   | subscribed (id : Nat)
   | errAuthorNotFound
+  /-- `InsertError::EntryIsEmpty` -/
+  | errEntryIsEmpty
   | errDefaultAuthor
   /-- the store's "document not created" -/
   | errNoDocument
@@ -151,6 +157,21 @@ def importThenOpen (s : NState) (ns : Bytes) (kind : Nat) (raw : Bytes) : NState
 def markGone (s : NState) (ns : Bytes) : NState :=
   { s with apiSubs := s.apiSubs.map (fun p => if p.2.1 == ns then (p.1, p.2.1, true) else p) }
 
+/-- a local write with the entry the replica signs: `get_author` comes first, then the open replica;
+`Subscribers::send` tries every sender of the document and drops those whose receiver is gone -/
+def writeLocal (s : NState) (ns : Bytes) (e : Entry) : NState × Reply :=
+  match authorGet s.a.t e.author with
+  | none => (s, .errAuthorNotFound)
+  | some _ =>
+    match Actor.step s.a (.insertLocal ns e) with
+    | (a', .inserted n) =>
+      -- `Subscribers::send`: every sender of the document is tried; those whose receiver is gone are dropped
+      let gone := s.apiSubs.filter (fun p => p.2.1 == ns && p.2.2)
+      let a'' := gone.foldl (fun a _ => (Actor.step a (.unsubscribe ns)).1) a'
+      ({ s with a := a'', apiSubs := s.apiSubs.filter (fun p => !(p.2.1 == ns && p.2.2)) },
+        .wrote (.inserted n) ((s.apiSubs.filter (fun p => p.2.1 == ns && !p.2.2)).map (·.1)))
+    | (a', r) => ({ s with a := a' }, .wrote r [])
+
 def stepRaw (s : NState) : Req → NState × Reply
   | .create ns raw => importThenOpen s ns 1 raw
   | .importNs ns kind raw => importThenOpen s ns kind raw
@@ -163,19 +184,15 @@ def stepRaw (s : NState) : Req → NState × Reply
       -- `kill_subscribers`: the client streams of this document end here, whatever the removal answers
       withA (markGone s1 ns) (Actor.step s1.a (.dropReplica ns))
     | (s1, r) => (s1, .act r)
-  | .setHash ns e =>
-    -- `get_author` comes first, then the open replica
+  | .setHash ns e => writeLocal s ns e
+  | .insertDoc ns e =>
+    -- `get_author`, the open replica, then the guard of `Replica::insert`
     match authorGet s.a.t e.author with
     | none => (s, .errAuthorNotFound)
     | some _ =>
-      match Actor.step s.a (.insertLocal ns e) with
-      | (a', .inserted n) =>
-        -- `Subscribers::send`: every sender of the document is tried; those whose receiver is gone are dropped
-        let gone := s.apiSubs.filter (fun p => p.2.1 == ns && p.2.2)
-        let a'' := gone.foldl (fun a _ => (Actor.step a (.unsubscribe ns)).1) a'
-        ({ s with a := a'', apiSubs := s.apiSubs.filter (fun p => !(p.2.1 == ns && p.2.2)) },
-          .wrote (.inserted n) ((s.apiSubs.filter (fun p => p.2.1 == ns && !p.2.2)).map (·.1)))
-      | (a', r) => ({ s with a := a' }, .wrote r [])
+      match getOpen s.a ns with
+      | none => (s, .wrote .errNotOpen [])
+      | some _ => if Replica.insertGuard e then (s, .errEntryIsEmpty) else writeLocal s ns e
   | .getExact ns author key incl => withA s (Actor.step s.a (.getExact ns author key incl))
   | .getMany ns q =>
     match getOpen s.a ns with
